@@ -48,6 +48,9 @@ pub enum Closer {
     AppReset(usize),
     /// target resets after having sent this many payload bytes
     TargetReset(usize),
+    /// application closes after it has sent everything and received the whole answer; the target sees the end of the
+    /// stream but does NOT close its own side: it keeps its socket open and silent (for 100 s)
+    AppAfterAllTargetHolds,
 }
 
 #[derive(Clone, Debug)]
@@ -420,6 +423,10 @@ async fn target_conn(mut s: TcpStream, _peer: SocketAddr, reg: Arc<Registry>, li
     if matches!(spec.closer, Closer::TargetReset(_)) {
         set_reset(&s);
     }
+    if spec.closer == Closer::AppAfterAllTargetHolds {
+        // the relay must let go of this flow although the target never closes
+        tokio::time::sleep(Duration::from_secs(100)).await;
+    }
     flow.target.lock().unwrap().closed_at.get_or_insert(Instant::now());
     drop(s);
 }
@@ -541,7 +548,7 @@ pub async fn run_app_flow(reg: Arc<Registry>, flow: Arc<Flow>, client_port: u16,
     };
     let mut ver = Verifier { nonce, flow: id, dir: DIR_S2C, off: 0, bad: None };
     let want_in = match spec.closer {
-        Closer::AppAfterAll => Some(spec.s2c),
+        Closer::AppAfterAll | Closer::AppAfterAllTargetHolds => Some(spec.s2c),
         _ => None,
     };
     {
